@@ -13,7 +13,7 @@ PID = 'C07'
 LEVEL = 'exploration'
 BUDGET_S = {'quick': 45, 'thorough': 600}
 FLOORS = {'quick': {'schedules': 15000, 'contended_schedules': 8000, 'entries': 40000, 'timeouts_judged': 300,
-                    'reacquire_checks': 15000},
+                    'reacquire_checks': 15000, 'stress_rounds': 10, 'stress_entries': 1000},
           'thorough': {'schedules': 500000, 'contended_schedules': 250000, 'entries': 1000000,
                        'timeouts_judged': 10000, 'reacquire_checks': 500000}}
 RULE = ("case = one schedule of k contenders x c lock/unlock cycles on one lock path (FileLock keep-file, FileLock "
@@ -24,7 +24,7 @@ RULE = ("case = one schedule of k contenders x c lock/unlock cycles on one lock 
         "at the same time (contention)")
 ASSUMPTIONS = [
     "threads with separate open() calls stand in for processes (flock is per open file description); validated "
-    "by a real two-process cross-check in the thorough tier",
+    "by real multi-process stress rounds (2-5 forked processes, injected delays, O_EXCL marker as exclusion monitor)",
     "lock objects are dropped right after unlock, as `with locker.lock(tile):` does in the repository",
     "cleanup_lockdir is outside the quantifier and not exercised",
     "virtual clock: time advances only by sleeps",
@@ -175,6 +175,8 @@ def gen_cases(run):
     # directed: the 3-contender remove-on-unlock configuration first
     for c in dfs_cases(run):
         yield c
+    for i in range(run.pick(24, 400)):
+        yield {'kind': 'stress', 'i': i}
     reps = run.pick(200, 7000)
     for cfg in base_configs():
         for k in range(reps):
@@ -234,8 +236,121 @@ def record(run, case, one, key):
         run.violation(mech, rc, '%s: %s | cfg=%r | trace=%r' % (kind, detail, cfg, one.sched.trace[-40:]))
 
 
+def stress_child(path, kind, n, cycles, seed, marker, result):
+    """real process, real clock: lock/unlock cycles with random delays injected at the lock's file-system calls;
+    exclusion is observed with an O_EXCL marker file (atomic), never with timing"""
+    import random
+    import time
+    from mapproxy.util.ext import lockfile
+    from mapproxy.util import lock as lockmod
+    rng = random.Random(seed)
+    real_open = open
+
+    def dopen(p, mode='r', *a, **kw):
+        time.sleep(rng.choice([0, 0, 0.0003, 0.001]))
+        f = real_open(p, mode, *a, **kw)
+        time.sleep(rng.choice([0, 0, 0.0003, 0.001]))
+        return f
+    lockfile.open = dopen
+
+    class OsP(object):
+        path = os.path
+
+        def __getattr__(self, k):
+            real = getattr(os, k)
+            if k == 'remove':
+                def f(*a, **kw):
+                    time.sleep(rng.choice([0, 0, 0.0005]))
+                    return real(*a, **kw)
+                return f
+            return real
+    lockmod.os = OsP()
+    bad = 0
+    entries = 0
+    for c in range(cycles):
+        if kind == 'sem':
+            lk = lockmod.SemLock(path, n, timeout=20.0, step=0.001)
+        else:
+            lk = lockmod.FileLock(path, timeout=20.0, step=0.001, remove_on_unlock=(kind == 'remove'))
+        try:
+            lk.lock()
+        except lockmod.LockTimeout:
+            del lk
+            continue
+        entries += 1
+        slots = []
+        try:
+            # at most n markers may exist at once
+            got = None
+            for j in range(n):
+                try:
+                    fd = os.open('%s.%d' % (marker, j), os.O_CREAT | os.O_EXCL | os.O_WRONLY)
+                    os.close(fd)
+                    got = j
+                    break
+                except FileExistsError:
+                    continue
+            if got is None:
+                bad += 1
+            time.sleep(rng.choice([0, 0.0002, 0.001]))
+            if got is not None:
+                os.unlink('%s.%d' % (marker, got))
+        finally:
+            lk.unlock()
+            del lk
+    with real_open(result, 'w') as f:
+        f.write('%d %d' % (bad, entries))
+
+
+def run_stress(run, case):
+    rng = run.rng('stress', case['i'])
+    kind = rng.choice(['remove', 'remove', 'keep', 'sem'])
+    n = rng.choice([1, 2]) if kind == 'sem' else 1
+    k = rng.randint(2, 5)
+    d = run.subdir('c07s')
+    try:
+        path = os.path.join(d, 'x.lck')
+        marker = os.path.join(d, 'inside')
+        pids = []
+        for p in range(k):
+            res = os.path.join(d, 'res%d' % p)
+            pid = os.fork()
+            if pid == 0:
+                code = 0
+                try:
+                    stress_child(path, kind, n, 40, rng.random() + p, marker, res)
+                except BaseException:   # noqa
+                    code = 1
+                finally:
+                    os._exit(code)
+            pids.append((pid, res))
+        bad = entries = 0
+        crashed = 0
+        for pid, res in pids:
+            _, st = os.waitpid(pid, 0)
+            if st != 0 or not os.path.exists(res):
+                crashed += 1
+                continue
+            b, e = open(res).read().split()
+            bad += int(b)
+            entries += int(e)
+        run.hit('stress_rounds')
+        run.hit('stress_entries', entries)
+        run.judge(('stress', kind, n, k), nontrivial=True)
+        if crashed:
+            run.dc('stress_child_crashed')
+        if bad:
+            run.violation({'problem': 'too_many_holders', 'lock': kind, 'mode': 'multiprocess_stress', 'contenders': k},
+                          case, '%d of %d critical-section entries found all %d marker slots taken (%d processes, %s lock)' % (
+                              bad, entries, n, k, kind))
+    finally:
+        shutil.rmtree(d, ignore_errors=True)
+
+
 def run_case(run, case):
     global _BASE
+    if case['kind'] == 'stress':
+        return run_stress(run, case)
     if _BASE is None:
         _BASE = run.subdir('c07')
     cfg = case['cfg']
